@@ -237,16 +237,16 @@ def _swap_pair(case):
     return None
 
 
-def build_inplace(case, algo, costs):
+def build_inplace(case, algo, costs, data=True):
     """The same input OBJECT is first solved in another state - another cost vector, leaf syntenies rotated among the leaves, two object
     leaves exchanged in the tree - and is then edited IN PLACE into the input under test (cost dictionary, synteny dictionary, tree),
     the way a program sweeping costs or correcting its data does (the repository's own tests switch costs this way)."""
-    pair = _swap_pair(case)
+    pair = _swap_pair(case) if data else None       # data=False: only the cost dictionary differs between the two solves
     pre = dict(case.desc)
     if pair:
         pre["ot"] = D._rename(case.ot, {pair[0]: pair[1], pair[1]: pair[0]})
     leaves = sorted(case.leafmap)
-    if case.leafsyn is not None and case.rootsyn is None:
+    if data and case.leafsyn is not None and case.rootsyn is None:
         # other contents and another gene order: rotated among the leaves, reversed, last family dropped
         pre["leafsyn"] = {l: (list(reversed(case.leafsyn[r]))[:-1] or list(case.leafsyn[r])) for l, r in zip(leaves, leaves[1:] + leaves[:1])}
     inp = H.Case(pre).build(PRIOR_COSTS[1])
@@ -258,7 +258,7 @@ def build_inplace(case, algo, costs):
     for ev in list(inp.costs):
         name = next(n for n, key in H.COST_KEYS.items() if key == ev.name)
         inp.costs[ev] = costs[name]
-    if case.leafsyn is not None and case.rootsyn is None:
+    if data and case.leafsyn is not None and case.rootsyn is None:
         for node in list(inp.leaf_syntenies):
             if node.is_leaf():
                 inp.leaf_syntenies[node] = list(case.leafsyn[node.name]) if not isinstance(inp.leaf_syntenies[node], str) else "".join(case.leafsyn[node.name])
@@ -288,7 +288,7 @@ def concrete_failures(desc, algo, policy, costs, flags, inplace=False, history=F
     orc = oracle_for(case, algo)
     need = bool({"opt", "empty"} & set(flags))
     forms = oracle_forms(orc, algo, need)
-    inp = build_inplace(case, algo, costs) if inplace else case.build(costs)
+    inp = build_inplace(case, algo, costs, data=(inplace != "costs")) if inplace else case.build(costs)
     extra = []
     if history and not inplace:
         shared_objects_prior(inp, algo)
@@ -361,7 +361,7 @@ def violation(prop, kind, text, desc, algo, policy, costs_conc, mode, flags, pri
         # the history (earlier calls, then this call with plain numbers) is replayed in a fresh interpreter
         data["prior"] = prior
         cf = [tuple(x) for x in _fresh_process({"mode": "replay", "data": data}, 600)]
-        text = ("after the same input object was solved under another cost vector and its cost dictionary changed in place: " if prior == "inplace" else
+        text = ("after the same input object was solved in another state (costs" + ("" if prior == "inplace-costs" else ", leaf syntenies, two leaves of the object tree") + ") and edited in place: " if prior in ("inplace", "inplace-costs") else
                 "after earlier calls in the same interpreter (same input at default costs; sibling input at other costs): ") + text
     else:
         cf = concrete_failures(desc, algo, policy, costs_conc, flags)
@@ -374,10 +374,10 @@ def violation(prop, kind, text, desc, algo, policy, costs_conc, mode, flags, pri
 
 
 def replay(data):
-    if data.get("prior") and data["prior"] != "inplace":
+    if data.get("prior") and data["prior"] not in ("inplace", "inplace-costs"):
         run_priors(data["desc"], data["algo"])      # `vcheck replay` is itself a fresh interpreter
     fails = concrete_failures(data["desc"], data["algo"], data["policy"], H.cost_unjson(data["costs"]), set(data["flags"]),
-                              inplace=data.get("prior") == "inplace", history=bool(data.get("prior")))
+                              inplace={"inplace": "data", "inplace-costs": "costs"}.get(data.get("prior"), False), history=bool(data.get("prior")))
     for k, t in fails:
         print(f"  reproduced: {k}: {t}")
     return any(k == data.get("expect") for k, _ in fails)
@@ -389,7 +389,7 @@ def explore(prop, desc, algo, policy, sym, fixed, flags, max_paths=20000, budget
     :param sym: list of symbolic cost names; fixed: dict of concrete values for the others
     :returns: result dict (paths, obligations, discharged, violations, ...)
     """
-    if prior and prior != "inplace":
+    if prior and prior not in ("inplace", "inplace-costs"):
         run_priors(desc, algo)       # only ever reached inside checks.hist_proc (fresh interpreter)
     case = H.Case(desc)
     orc = oracle_for(case, algo)
@@ -401,8 +401,8 @@ def explore(prop, desc, algo, policy, sym, fixed, flags, max_paths=20000, budget
     sup = is_super(algo)
     ordered = D.ORDERED[algo] if sup else None
     ctx, costs = H.cost_ctx(sym, fixed=fixed, coherent=coherent, with_sloss=sup, max_paths=max_paths, budget_s=budget_s)
-    inp = build_inplace(case, algo, costs) if prior == "inplace" else case.build(costs)
-    if prior and prior != "inplace":
+    inp = build_inplace(case, algo, costs, data=(prior == "inplace")) if prior in ("inplace", "inplace-costs") else case.build(costs)
+    if prior and prior not in ("inplace", "inplace-costs"):
         shared_objects_prior(inp, algo)
     mode = "sym=" + ",".join(sym) + (" hgt=inf" if costs["hgt"] is inf else "")
     out = dict(paths=0, obligations=0, discharged=0, violations=[], sample=None)
@@ -423,7 +423,7 @@ def explore(prop, desc, algo, policy, sym, fixed, flags, max_paths=20000, budget
             out["discharged"] += 1
         return ok
 
-    if prior and prior != "inplace":
+    if prior and prior not in ("inplace", "inplace-costs"):
         dflt = default_cost_fails(desc)
         out["obligations"] += 1
         if dflt:
@@ -737,7 +737,7 @@ def history_runs(algos, flags, policies=("any",)):
     out = []
     for algo in algos:
         for pol in policies:
-            for prior in (True, "inplace"):
+            for prior in (True, "inplace", "inplace-costs"):
                 out.append({"algo": algo, "policy": pol, "sym": FULL5 if is_super(algo) else ["spe", "dup", "hgt", "floss"], "fixed": {},
                             "flags": sorted(flags), "coherent": True, "prior": prior})
     return out
